@@ -49,7 +49,8 @@ def world_cfg(case):
              "handler_plan": ["answer", "answer", "raise", "answer"] if case.get("app_kind") != "threading" else None,
              "handler": "answer"}]
     return {"peers": peers, "apps": apps, "node_timers": {"idle": 8, "dwa": 3, "cer": 4, "cea": 4, "wakeup": 2},
-            "default_dial": "ok", "sched_seed": case.get("seed", 0), "yield_all": case.get("yield_all", False)}
+            "default_dial": "ok", "sched_seed": case.get("seed", 0), "yield_all": case.get("yield_all", False),
+            **({"retransmit_queue_size": case["window"]} if case.get("window") else {})}
 
 
 def evaluate(case) -> Result:
@@ -106,7 +107,13 @@ def evaluate(case) -> Result:
             host = names[ci]
             i = nid()
             base = {"hbh": i, "e2e": i, "host": host}
-            if idmode and (ci, s, idmode) not in used_special and s not in ("HS", "NODE_REQ", "NODE_REQ_ANS", "REQ_T"):
+            if idmode == "e2e-repeat" and s not in ("HS", "NODE_REQ", "NODE_REQ_ANS", "REQ_T"):
+                # an origin re-using an end-to-end identifier under a new hop-by-hop identifier (a watchdog sent with a
+                # fixed value, a request repeated without the T flag): with small retransmission windows the same value
+                # sits in the window of answered ids more than once
+                base["e2e"] = 0x7e2e
+                res.classes.append("ids:e2e-repeat")
+            elif idmode and (ci, s, idmode) not in used_special and s not in ("HS", "NODE_REQ", "NODE_REQ_ANS", "REQ_T"):
                 # boundary identifiers (0 and 2^32-1 are valid values); each special key once per connection
                 used_special.add((ci, s, idmode))
                 if idmode == "zero-hbh":
@@ -270,7 +277,7 @@ def evaluate(case) -> Result:
         if cross:
             res.classes.append("cross:thread-died")
         res.nontrivial = defect
-        res.classes += [f"nconn:{nconn}", f"app:{case.get('app_kind', 'basic')}", f"out0:{bool(case.get('out0'))}",
+        res.classes += [f"nconn:{nconn}", f"window:{case.get('window')}", f"app:{case.get('app_kind', 'basic')}", f"out0:{bool(case.get('out0'))}",
                         "defective" if defect else "clean"]
         for e_ in case["events"]:
             res.classes.append(f"sym:{e_[1]}")
@@ -363,6 +370,13 @@ def shard_main(shard, nshards, tier, scale):
             for mid in ([], [[0, "REQ"]], [[0, "DWR"]]):
                 jobs.append({"nconn": 1, "out0": out0, "name0": name0,
                              "events": [[0, "HS"], [0, "REQ_hold"]] + mid + [[0, "RECONNECT"], [0, "SUBMIT"], [0, "REQ"]]})
+    # a repeated end-to-end id inside retransmission windows of 1..3 answers, then enough answers to push both copies out
+    for window in (1, 2, 3):
+        for sym in ("REQ", "DWR"):
+            for later in ("REQ", "DWR"):
+                for k in (2, 3):
+                    jobs.append({"nconn": 1, "out0": False, "window": window,
+                                 "events": [[0, "HS"]] + [[0, sym, "e2e-repeat"]] * k + [[0, later]] * (window + 2)})
     if shard == 0:
         rec.extra["enumerated_histories"] = len(jobs)
     for case in jobs[shard::nshards]:
@@ -375,9 +389,9 @@ def shard_main(shard, nshards, tier, scale):
     def cases(draw):
         nconn = draw(st.integers(1, 3))
         ev = draw(st.lists(st.tuples(st.integers(0, nconn - 1), st.sampled_from(SYMS),
-                                     st.sampled_from([None, None, None, "zero-hbh", "zero-e2e", "both-zero", "max"])),
+                                     st.sampled_from([None, None, None, "zero-hbh", "zero-e2e", "both-zero", "max", "e2e-repeat", "e2e-repeat"])),
                            min_size=1, max_size=14))
-        return {"nconn": nconn, "out0": draw(st.booleans()), "app_kind": draw(st.sampled_from(["basic", "threading"])),
+        return {"nconn": nconn, "window": draw(st.sampled_from([None, None, 1, 2, 3])), "out0": draw(st.booleans()), "app_kind": draw(st.sampled_from(["basic", "threading"])),
                 "name0": draw(st.sampled_from(["peer1.example", "Peer1.Example", "PEER1.example"])),
                 "seed": draw(st.integers(0, 7)), "yield_all": draw(st.booleans()),
                 "events": [[c, s, m] for c, s, m in ev]}
@@ -387,7 +401,49 @@ def shard_main(shard, nshards, tier, scale):
         res.classes.append("random")
         record(rec, case, res, evaluate, "events", shrunk)
     hyp.run_given(cases(), body, n, derive_seed(PID, "rand", shard), rec=rec)
+
+    # (b) the generators of the sibling properties with this property's monitor armed: retransmission windows of every
+    # size with repeated end-to-end ids (C17), watchdog and disconnect exchanges over long clocks (C11, C12), answers
+    # submitted around faults (C09)
+    from checks import c13 as _c13
+    import importlib
+    m = int((1500 if thorough else 120) * scale)
+    for name in ("c17", "c11", "c12", "c09"):
+        mod = importlib.import_module(f"checks.{name}")
+        strat = _c13.machine_strategy(name, mod)
+        if strat is None:
+            continue
+
+        def mbody(inner, name=name):
+            case = {"machine": name, "case": inner}
+            res = evaluate_machine(case)
+            record(rec, case, res)
+        hyp.run_given(strat, mbody, m, derive_seed(PID, "machine", name, shard), rec=rec)
     return rec.dump()
+
+
+def evaluate_machine(case) -> Result:
+    """A case of a sibling property's generator, judged by this property's transcript monitor alone."""
+    import importlib
+    res = Result()
+    mod = importlib.import_module(f"checks.{case['machine']}")
+    worlds = []
+
+    def hook(w, label):
+        if not any(w is x for x in worlds):
+            worlds.append(w)
+    W.STEP_HOOKS.append(hook)
+    try:
+        mod.evaluate(case["case"])
+    finally:
+        W.STEP_HOOKS.remove(hook)
+    for w in worlds:
+        for kind, ci, detail in W.monitor_answers(w):
+            res.v(f"C07/{kind}", f"[{case['machine']} machine] " + detail)
+    res.classes.append(f"machine:{case['machine']}")
+    res.nontrivial = True
+    res.sample = case
+    return res
 
 
 def run(tier, scale=1.0):
@@ -395,7 +451,7 @@ def run(tier, scale=1.0):
     rec = Recorder(PID)
     for d in hyp.pool_run(shard_main, (tier, scale)):
         rec.merge(d)
-    required = {f"sym:{s}": 1 for s in SYMS} | {"schedule-exploration": 1, "dup-avp:264:untyped": 1, "dup-avp:283:untyped": 1, "dup-avp:264:typed": 1, "ids:zero-hbh": 1, "ids:zero-e2e": 1, "ids:both-zero": 1, "nconn:3": 1, "app:threading": 1, "out0:True": 1, "defective": 1}
+    required = {f"sym:{s}": 1 for s in SYMS} | {"machine:c17": 1, "machine:c11": 1, "machine:c12": 1, "machine:c09": 1, "schedule-exploration": 1, "dup-avp:264:untyped": 1, "dup-avp:283:untyped": 1, "dup-avp:264:typed": 1, "ids:zero-hbh": 1, "ids:e2e-repeat": 1, "window:2": 1, "ids:zero-e2e": 1, "ids:both-zero": 1, "nconn:3": 1, "app:threading": 1, "out0:True": 1, "defective": 1}
     return finish(rec, tier=tier, level="exploration", rule=RULE, assumptions=ASSUME, t0=t0,
                   required_classes=required)
 
@@ -415,4 +471,6 @@ def replay(doc):
 
 
 def _replay_history(doc):
+    if doc["case"].get("machine"):
+        return generic_replay(PID, evaluate_machine, doc)
     return generic_replay(PID, evaluate, doc)
